@@ -1,10 +1,10 @@
 #!/usr/bin/env python3
 """prints a markdown table of what the last run of each check covered (from evidence/*.json); used for DESIGN.md appendix A"""
-import json, glob, os
+import json, glob, os, sys
 V = os.path.dirname(os.path.dirname(os.path.abspath(__file__)))
 print('| check | tier | paths | solver queries | obligations | functions encoded | models used | native validations | known findings | inconclusive | wall |')
 print('|---|---|---|---|---|---|---|---|---|---|---|')
-for f in sorted(glob.glob(os.path.join(V, 'evidence', 'C*.json'))):
+for f in sorted(glob.glob(os.path.join(sys.argv[1] if len(sys.argv) > 1 else os.path.join(V, 'evidence'), 'C*.json'))):
     e = json.load(open(f)); c = e['coverage']
     print('| %s | %s | %d | %d | %d | %d | %d | %d | %d | %d | %.0f s |' % (e['property_id'], e['tier'], c['states'], c['solver']['queries'], c['obligations_discharged'], len(c['functions_encoded']),
           len(c['library_models_used']), c['traces_validated_against_impl'], len(c.get('known_findings_reported', [])), len(c['inconclusive']), e['wall_s']))
